@@ -296,6 +296,13 @@ def proof_layer(pid, tier):
     if tier == "thorough" and res["ok"]:
         rc, out = sh(["timeout", "1500", "coqchk", "-o", "-silent", "-Q", COQ, "PV", "PV.Properties.%s" % pid], cwd=COQ, timeout=1600)
         res["coqchk"] = out[-800:]
+        m = re.search(r"\* Axioms:\s*(.*?)\n\s*\n", out, re.S)
+        axioms = m.group(1).strip() if m else "?"
+        res["coqchk_axioms"] = axioms
+        bad_ctx = [k for k in ("type-in-type", "unsafe (co)fixpoints", "positivity is assumed") if not re.search(re.escape(k) + r":\s*<none>", out)]
+        if rc == 0 and (axioms != "<none>" or bad_ctx):
+            res["ok"] = False
+            res["failures"].append({"kind": "coqchk-context-not-clean", "where": pid, "axioms": axioms, "flags": bad_ctx})
         if rc != 0:
             res["ok"] = False
             res["failures"].append({"kind": "coqchk-failed", "where": pid, "log": out[-1500:]})
